@@ -478,14 +478,14 @@ def minor_elliptic (body : MinorBody) (t_peri : Num) : PyRes (Num × Num) :=
   | .error err => .error err
   | .ok (ee, v) => .ok (v, body.a * (1.0 - body.e * pcos (angRad (angToPositive ee))))
 
-/-- branch `elif abs(e - 1.0) < self._tol:`; `dt0` is `epoch - self._t` WITHOUT the light time: the code uses
-    it in both passes -/
-def minor_parabolic (body : MinorBody) (dt0 : Num) : PyRes (Num × Num) :=
-  -- q = self._q; ww = 0.03649116245 * (epoch - self._t) / (q * sqrt(q)); sp = ww / 3.0
+/-- branch `elif abs(e - 1.0) < self._tol:` (first pass: `epoch - self._t`, second pass: `t_peri`, i.e. the
+    time from perihelion of the pass in both) -/
+def minor_parabolic (body : MinorBody) (t_peri : Num) : PyRes (Num × Num) :=
+  -- q = self._q; ww = (0.03649116245 * t_peri) / (q * sqrt(q)); sp = ww / 3.0
   let q := body.q
   if plt q 0.0 then .error .valueError else
   if peq (q * psqrt q) 0.0 then .error .zeroDivisionError else
-  let ww := 0.03649116245 * dt0 / (q * psqrt q)
+  let ww := 0.03649116245 * t_peri / (q * psqrt q)
   match loopFuel (parabolic_step ww) 100000 (ww / 3.0) with
   | none => .error .other
   | some s =>
@@ -494,11 +494,11 @@ def minor_parabolic (body : MinorBody) (dt0 : Num) : PyRes (Num × Num) :=
 
 /-- the three orbit regimes of `Minor.geocentric_position`: true anomaly `v` (an Angle, degrees) and radius
     vector for the time from perihelion `t_peri` -/
-def minor_orbit (body : MinorBody) (t_peri dt0 : Num) : PyRes (Num × Num) :=
+def minor_orbit (body : MinorBody) (t_peri : Num) : PyRes (Num × Num) :=
   -- if e < 0.98:
   if plt body.e 0.98 then minor_elliptic body t_peri
   -- elif abs(e - 1.0) < self._tol:
-  else if plt (pabs (body.e - 1.0)) geo_tol then minor_parabolic body dt0
+  else if plt (pabs (body.e - 1.0)) geo_tol then minor_parabolic body t_peri
   -- else: v, rr = self._near_parabolic(t_peri)
   else near_parabolic body t_peri
 
@@ -512,8 +512,7 @@ def minor_xyz (body : MinorBody) (v rr : Num) : Num × Num × Num :=
 /-- `Minor.geocentric_position(epoch)` → `(ra, dec, elongation)` -/
 def minor_geocentric_position (body : MinorBody) (jde : Num) : PyRes (Num × Num × Num) :=
   -- t_peri = epoch - t
-  let dt0 := jde - body.t
-  match minor_orbit body dt0 dt0 with
+  match minor_orbit body (jde - body.t) with
   | .error err => .error err
   | .ok (v, rr) =>
     let p := minor_xyz body v rr
@@ -525,10 +524,9 @@ def minor_geocentric_position (body : MinorBody) (jde : Num) : PyRes (Num × Num
       let eta := p.2.1 + s.2.1
       let zeta := p.2.2 + s.2.2
       -- delta = sqrt(xi * xi + eta * eta + zeta * zeta); tau = 0.0057755183 * delta
-      let delta := psqrt (xi * xi + eta * eta + zeta * zeta)
-      let tau := 0.0057755183 * delta
+      let tau := 0.0057755183 * psqrt (xi * xi + eta * eta + zeta * zeta)
       -- t_peri = epoch - t - tau
-      match minor_orbit body (jde - body.t - tau) dt0 with
+      match minor_orbit body (jde - body.t - tau) with
       | .error err => .error err
       | .ok (v, rr) =>
         let p := minor_xyz body v rr
@@ -538,6 +536,8 @@ def minor_geocentric_position (body : MinorBody) (jde : Num) : PyRes (Num × Num
         -- ra = Angle(atan2(eta, xi), radians=True); dec = Angle(atan2(zeta, sqrt(xi * xi + eta * eta)), radians=True)
         let ra := angOfRad (patan2 eta xi)
         let dec := angOfRad (patan2 zeta (psqrt (xi * xi + eta * eta)))
+        -- delta = sqrt(xi * xi + eta * eta + zeta * zeta)        (distance of the light-time corrected position)
+        let delta := psqrt (xi * xi + eta * eta + zeta * zeta)
         -- r_sun = sqrt(xs * xs + ys * ys + zs * zs); psi = acos((xi * xs + eta * ys + zeta * zs) / (r_sun * delta))
         let r_sun := psqrt (s.1 * s.1 + s.2.1 * s.2.1 + s.2.2 * s.2.2)
         if peq (r_sun * delta) 0.0 then .error .zeroDivisionError else
